@@ -9,8 +9,18 @@ by the Coq monitor with the model's pred_drift on the drifted frames (ties the
 implementation's use of the predictor - also for remembered particles - to the
 model's) AND with no predictor on the undrifted frames (the property itself:
 same partition up to cost ties); (b) NullPredict().link_df_iter replayed with no
-predictor; (c) random predictors: labels unique per frame.
+predictor; (c) random predictors: labels unique per frame; (d) the predictors of trackpy.predict called
+directly on Point objects (null_predict, NullPredict().predict, a function under @predictor, DriftPredict.predict
+with a given velocity) against the closed forms proved of the generated code.
+
+Route T.  tools/py2coq_predict.py re-translates the CURRENT text of trackpy/predict.py (predictor, null_predict,
+NullPredict, _RecentVelocityPredict.__init__ / state, DriftPredict.predict), of HashBase / HashKDTree
+(trackpy/linking/subnet.py), points_to_arr / points_from_arr and Linker.update_hash into coq/Gen/predict.v before
+the proofs are re-checked; Proofs/PredictGen.v proves the generated functions equal to the model
+(C11_generated_*).  A translation failure or a failing re-proof is reported through chk.proof_broken; the
+correspondence run still takes place, so that a concrete failing input is searched for.
 """
+import os, sys, hashlib
 import numpy as np, pandas as pd, json
 from fractions import Fraction
 import common, linkgen
@@ -22,6 +32,117 @@ FUNC_DRIFT = ("fun c => match c with (m, mem, ms, fr, out, v, tags) => "
               "check_run m mem ms (pred_drift v tags) fr out end")
 FUNC_PLAIN = c02.FUNC
 CODES = c02.CODES
+
+TRANSLATOR = os.path.join(common.VERIF, 'tools', 'py2coq_predict.py')
+GEN = os.path.join(common.COQ, 'Gen', 'predict.v')
+
+
+# ---- route T: translator / build ----------------------------------------------------------
+def regenerate(chk):
+    """re-run the translator on the current source; returns (ok, text-or-log)"""
+    rc, out = common.sh([sys.executable, TRANSLATOR, '--repo', common.REPO, '--stdout'], timeout=60)
+    if rc != 0:
+        return False, out
+    with common.Lock(os.path.join(common.COQ, '.build.lock')):
+        old = open(GEN).read() if os.path.exists(GEN) else None
+        if old != out:
+            os.makedirs(os.path.dirname(GEN), exist_ok=True)
+            tmp = GEN + '.tmp%d' % os.getpid()
+            with open(tmp, 'w') as f:
+                f.write(out)
+            os.replace(tmp, GEN)
+            chk.tally('Gen/predict.v rewritten (source differs from last run)')
+        else:
+            chk.tally('Gen/predict.v unchanged')
+    return True, out
+
+
+def ensure_model(chk):
+    """the executable model and monitor (Model/LinkCheck.vo, Model/Predict.vo) are needed by the correspondence run
+    even when the translation or a proof about the generated functions is broken"""
+    def fresh(v):
+        vo = os.path.join(common.COQ, v + 'o')
+        return os.path.exists(vo) and os.path.getmtime(vo) >= os.path.getmtime(os.path.join(common.COQ, v))
+    files = ('Model/Assign.v', 'Model/Link.v', 'Model/LinkCheck.v', 'Model/Predict.v')
+    if all(fresh(v) for v in files):
+        return True
+    with common.Lock(os.path.join(common.COQ, '.build.lock')):
+        for v in files:
+            if fresh(v):
+                continue
+            rc, out = common.sh('timeout 300 coqc -Q . TP %s' % v, timeout=330, cwd=common.COQ)
+            if rc != 0:
+                chk.proof_broken(v, out)
+                return False
+    return True
+
+
+def build(chk):
+    """translator -> cone of Properties/C11.v; returns True when the executable model is available"""
+    ok, text = regenerate(chk)
+    if not ok:
+        chk.proof_broken('translation tools/py2coq_predict.py (trackpy/predict.py, HashBase / HashKDTree, points_to_arr / points_from_arr or '
+                         'Linker.update_hash left the translatable subset)', text)
+        chk.build = dict(obligations=0, discharged=0, assumptions=[], files=[], theorems=[])
+    else:
+        for attempt in range(3):
+            b = chk.coq()
+            if open(GEN).read() == text:
+                break
+            # another run (different TRACKPY_REPO) rewrote the generated file in between: redo
+            chk.violations = [v for v in chk.violations if not v[0].startswith('proof:')]
+            regenerate(chk)
+        chk.notes.append('Gen/predict.v sha1 %s generated from %s' % (hashlib.sha1(text.encode()).hexdigest()[:12], common.REPO))
+        if not b['ok']:
+            # say which statement about the generated functions no longer checks
+            with common.Lock(os.path.join(common.COQ, '.build.lock')):
+                rc, out = common.sh('timeout 600 make Proofs/PredictGen.vo 2>&1 | tail -25', timeout=630, cwd=common.COQ)
+            chk.notes.append('make Proofs/PredictGen.vo (generated functions = model): ' + out[-2500:])
+    return ensure_model(chk)
+
+
+# ---- (d) the predictors of trackpy.predict called directly ------------------------------------
+def direct_case(rng):
+    ndim = rng.choice([1, 2, 3])
+    n = rng.randint(1, 6)
+    return dict(ndim=ndim, v=[rng.randint(-50, 50) for _ in range(ndim)], t1=rng.randint(-5, 40),
+                pts=[(rng.randint(-5, 30), [rng.randint(-100, 100) for _ in range(ndim)]) for _ in range(n)])
+
+
+def direct_check(d):
+    """returns a list of (what, got, want) mismatches; integer data, so float arithmetic is exact"""
+    from trackpy import predict as tpred
+    from trackpy.linking.utils import Point
+    Point.reset_counter()
+    v = np.array(d['v'], dtype=float)
+    pts = [Point(t, np.array(p, dtype=float)) for t, p in d['pts']]
+    stay = [list(map(float, p)) for _, p in d['pts']]
+    moved = [[float(x + vv * (d['t1'] - t)) for x, vv in zip(p, d['v'])] for t, p in d['pts']]
+    bad = []
+
+    def cmp(what, got, want):
+        try:
+            got = [list(map(float, np.asarray(g).ravel())) for g in list(got)]
+        except Exception as e:
+            got = 'raised %r' % e
+        if got != want:
+            bad.append((what, got, want))
+    try:
+        cmp('null_predict', tpred.null_predict(d['t1'], pts), stay)
+        cmp('NullPredict().predict', tpred.NullPredict().predict(d['t1'], pts), stay)
+
+        @tpred.predictor
+        def P(t1, particle):
+            return particle.pos + v * (t1 - particle.t)
+        cmp('@predictor exact-drift function', P(d['t1'], pts), moved)
+        dp = tpred.DriftPredict()
+        dp.vel = v
+        cmp('DriftPredict.predict with vel = v', dp.predict(d['t1'], pts), moved)
+        if [list(map(float, p.pos)) for p in pts] != stay or [p.t for p in pts] != [t for t, _ in d['pts']]:
+            bad.append(('a predictor changed the particles it was given', [list(map(float, p.pos)) for p in pts], stay))
+    except Exception as e:
+        bad.append(('a predictor raised', repr(e), None))
+    return bad
 
 
 def gen(rng, tier):
@@ -102,8 +223,18 @@ def _run(chk):
     import trackpy as tp
     from trackpy.predict import predictor, NullPredict
     common.quiet_trackpy()
-    chk.coq()
+    build(chk)
     n = 120 if chk.tier == 'quick' else 4000
+    # (d) the predictors themselves
+    for k in range(n):
+        d = direct_case(chk.rng)
+        bad = direct_check(d)
+        chk.count(('direct', d), len(d['pts']) >= 2 and any(d['v']))
+        chk.tally('predictor called directly on Points')
+        for what, got, want in bad[:1]:
+            chk.violation('predictor called directly: %s' % what,
+                          '%s on %d particles at t1=%d gives %s, the closed form proved of the generated code gives %s' % (what, len(d['pts']), d['t1'], got, want),
+                          dict(kind='direct', case=d))
     t_drift, t_plain, metas = [], [], []
     t_null, m_null = [], []
     for k in range(n):
@@ -194,8 +325,14 @@ def _run(chk):
     if metas:
         chk.sample(jsonable(metas[0][0], metas[0][1]))
     chk.coverage['rule'] = ("lattice movies (blank frames, vanishing particles) + uniform integer drift v*t (|v| up to 1000 px/frame), frame numbering with offsets and gaps, "
-                            "memory 0-3, strategies recursive/nonrecursive/numba; non-trivial = >= 6 features and v != 0")
-    chk.assumptions += ["as C02 (KD-tree exact, lattice inputs)", "the drift predictor is a user function decorated with trackpy.predict.predictor (DriftPredict's own velocity estimation is not exercised)"]
+                            "memory 0-3, strategies recursive/nonrecursive/numba; non-trivial = >= 6 features and v != 0; "
+                            "direct predictor calls: 1-6 particles, integer positions / times / velocity, non-trivial = >= 2 particles and v != 0")
+    chk.assumptions += ["as C02 (KD-tree exact, lattice inputs)", "the drift predictor is a user function decorated with trackpy.predict.predictor (DriftPredict's own velocity estimation is not exercised; DriftPredict.predict is, with a given velocity)",
+                        "route T: tools/py2coq_predict.py (fail-closed; subset, conventions and list of primitives in its docstring) and the vocabulary Model/PyPredict.v are trusted: "
+                        "heap of Point objects, value semantics for hash objects under the alias rule, a linking function as a one-frame-per-step state machine that is handed the "
+                        "predictor at each step, self.hash_cls = HashKDTree, single-particle predictor functions total and not mutating their particle; "
+                        "Subnets.compute's two reads (dest_hash.coords_mapped, source_hash.tree) are transcribed by hand in Model/Predict2.gen_level; "
+                        "Linker.apply_links / Subnets.compute are not translated here (C01 / C02 cover them by correspondence)"]
 
 
 def replay(chk, path):
@@ -206,8 +343,18 @@ def replay(chk, path):
 def _replay(chk, path):
     from trackpy.predict import predictor
     common.quiet_trackpy()
-    chk.coq()
+    build(chk)
     r = json.load(open(path))['replay']
+    if r.get('kind') == 'direct':
+        bad = direct_check(r['case'])
+        chk.count(('replay', r['case']), True)
+        print('replay: direct predictor calls, mismatches:', bad)
+        for what, got, want in bad[:1]:
+            chk.violation('predictor called directly: %s' % what, '%s gives %s, expected %s' % (what, got, want), dict(kind='direct', case=r['case']))
+        return
+    if r.get('kind') == 'proof-or-correspondence-broken':
+        print('replay: translation / proof obligation', r.get('theorem_or_file'), '-> still broken' if chk.violations else '-> checks now')
+        return
     cj = r['case']
     frames = [np.array(f, dtype=float).reshape(len(f), -1) for f in cj['frames']]
     ndim = len(cj['v'])
